@@ -301,6 +301,8 @@ def op_world(job):
             os.chdir(w.root)
         elif job.get("cwd") == "tmp":
             os.chdir(w.tmp)
+        elif job.get("cwd") == "parent":
+            os.chdir(w.parent)
         elif job.get("cwd") == "deep":
             d = os.path.join(w.tmp, "x", "y", "z")
             os.makedirs(d, exist_ok=True)
